@@ -373,6 +373,13 @@ seed("M.listener-blocking", "C20", 'C20.R1:listener:nonblocking', 'the listening
 seed("M.listener-no-reuseport", "C20", 'C20.R1:listener:reuse_port', 'SO_REUSEPORT switched off',
      ('memcrs/src/memcache_server/memc_tcp.rs', 'socket.set_reuse_port(true)?;', 'socket.set_reuse_port(false)?;'))
 
+seed("M.skip-no-zero-guard", 'C13', 'C13.R3:skip_bytes:read-capped', 'the discard loop is entered for a count of 0',
+     ('memcrs/src/protocol/binary_connection.rs', '        if bytes == 0 {\n            return Ok(());\n        }', '        if false {\n            return Ok(());\n        }'))
+seed("M.skip-no-eof-exit", 'C13', 'C13.R3:skip_bytes:eof-exit', 'the discard loop ignores end of stream',
+     ('memcrs/src/protocol/binary_connection.rs', '            if bytes_read == 0 {', '            if false {'))
+seed("M.skip-panic-unguarded", 'C13', 'C13.R3:skip_bytes:panic-guarded', "the 'read too much' panic is no longer guarded",
+     ('memcrs/src/protocol/binary_connection.rs', '            if bytes_counter > bytes as usize {', '            if true {'))
+
 # ---------------------------------------------------------------- neutral variants
 neutral("N.rename-local", "rename a local in MemoryStore::set",
         (STORE, "            let cas = self.get_cas_id();\n            record.header.cas = cas;", "            let fresh = self.get_cas_id();\n            let cas = fresh;\n            record.header.cas = cas;"))
